@@ -11,6 +11,8 @@ prop, letter = sys.argv[1], sys.argv[2]
 skip_tests = "--skip-tests" in sys.argv
 needs = sys.argv[sys.argv.index("--needs") + 1] if "--needs" in sys.argv else ""
 extra = sys.argv[sys.argv.index("--also") + 1].split(",") if "--also" in sys.argv else []
+rev = sys.argv[sys.argv.index("--rev") + 1] if "--rev" in sys.argv else "HEAD"
+note = sys.argv[sys.argv.index("--note") + 1] if "--note" in sys.argv else ""
 src = f"/tmp/wt-{prop}"
 patch, demo = f"{src}/patch{letter}.diff", f"{src}/demo{letter}.py"
 out = os.path.join(V, "seeded", f"{prop}-{letter}")
@@ -19,11 +21,12 @@ shutil.copy(patch, os.path.join(out, "patch.diff"))
 shutil.copy(demo, os.path.join(out, "demo.py"))
 d = tempfile.mkdtemp(prefix="rvseed-", dir="/var/tmp")
 wt = os.path.join(d, "repo")
-meta = {"property": prop, "letter": letter, "needs_to_manifest": needs, "ran": {}}
+meta = {"property": prop, "letter": letter, "needs_to_manifest": needs, "base_rev": rev, "note": note, "ran": {}}
 try:
-    subprocess.run(["git", "-C", "/repo", "worktree", "add", "--detach", "-q", wt, "HEAD"], check=True)
+    subprocess.run(["git", "-C", "/repo", "worktree", "add", "--detach", "-q", wt, rev], check=True)
+    meta["base_commit"] = subprocess.run(["git", "-C", wt, "log", "--format=%h", "-1"], capture_output=True, text=True).stdout.strip()
     r = subprocess.run(["git", "-C", wt, "apply", os.path.join(out, "patch.diff")], capture_output=True, text=True)
-    meta["ran"]["git apply on /repo HEAD"] = "ok" if r.returncode == 0 else r.stderr[-300:]
+    meta["ran"][f"git apply on /repo {rev}"] = "ok" if r.returncode == 0 else r.stderr[-300:]
     if r.returncode:
         raise SystemExit("patch does not apply")
     if not skip_tests:
